@@ -19,6 +19,17 @@ def run(ctx):
                    label="sequential, 10 calls")
         ctx.tlc_mc(fam, "IdGen", "IdGen_MC_conc_big.cfg", workers=16, timeout=3000, heap="16g",
                    label="two overlapping callers, 6 calls")
+    # unbounded design-level safety (extras/ind.md): IdGen_Ind restates the machine on integer fields;
+    # TLC checks the refinement IdGen -> IdGen_Ind on the MC constants, Apalache the inductive invariant
+    # for any step width M, any clock history, any number of calls
+    ctx.tlc_mc(fam, "IdGen_IndRef", "IdGen_IndRef.cfg", workers=4, label="refinement IdGen -> IdGen_Ind, sequential")
+    if ctx.thorough:
+        ctx.tlc_mc(fam, "IdGen_IndRef", "IdGen_IndRef_conc.cfg", workers=4, label="refinement IdGen -> IdGen_Ind, two callers")
+    ctx.apalache_ind(fam, "IdGen_Ind", cinit="CInit", timeout=300,
+                     label="IdGen_Ind: algorithm => contract, inductive; M symbolic, 3 threads")
+    for dev in (("NoCarry", "Ge", "SeedTime", "NanoGe") if ctx.thorough else ()):
+        ctx.apalache_ind(fam, "IdGen_Ind", cinit="CInit" + dev, timeout=300, expect_violation=True,
+                         label="IdGen_Ind witness: not inductive under deviation %s" % dev)
     pdir, plans = ctx.tlc_plans(fam, "IdGen_Gen", "IdGen_Gen.cfg", num=ctx.q(12, 150), depth=26)
     binary = ctx.go_build("c06")
     seqf, concf = ctx.path("seq.ndjson"), ctx.path("conc.ndjson")
